@@ -43,7 +43,7 @@ PROPS = {
               'share one tag, different pairs never do), and routing: in framed mode the table gains exactly the destinations of the '
               'output-producing actions of the tree.',
         not_decided=['byte layout of a frame at run time (the frame lambda is a constant string executed by Guile)',
-                     'DistributedSchemeManager::printer_map inverts the tag map (iterator map/collect; assumed contract)'],
+                     'DistributedSchemeManager::printer_map inverts the tag map: iterator map/collect over a HashMap, assumed contract — covered only by a BOUNDED stand-in (all expressions of up to 3 output actions over 6 destination/terminator kinds, run through the public API on every check; labelled bounded, not counted as proved)'],
     ),
     'C11': dict(
         level='proof',
